@@ -346,8 +346,9 @@ def evaluate_expression(expr, options=None, locals_=None, builtins=True):
                     result = float(left_value) ** right_value
                     return result if not isinstance(result, complex) else None
 
-        # Arithmetic errors (division by zero, overflow) yield null
-        except ArithmeticError:
+        # Arithmetic errors (division by zero, overflow) and value errors (non-finite or out-of-range values,
+        # containers nested beyond the recursion limit) yield null
+        except (ArithmeticError, ValueError, RecursionError):
             return None
 
         # Invalid operation values
